@@ -98,8 +98,8 @@ def roundtrip_cases(ndocs, nholes, fq, ft, f2q, nextra=0, xk1=()):
                 cs.append({"k": 1, "doc": d, "fopt": fo})
             for fo in (f2q if tier == "quick" else ft):
                 cs.append({"k": 2, "doc": d, "fopt": fo})
-            if tier == "thorough":
-                cs.append({"k": 3, "doc": d, "fopt": fq[-1]})
+            # 3 inserted tokens: 270 s for the smallest executable seed document, not finished in 600 s for a
+            # type-system one - not registered
         for h in range(nholes):
             for hk in ((1, 2) if tier == "quick" else (1, 2, 3)):
                 cs.append({"k": hk, "hole": h, "fopt": fq[(h + hk) % len(fq)]})
@@ -361,7 +361,7 @@ CHECKS = {
         "case_timeout": {"quick": 600, "thorough": 3000},
         "level_text": "Two units. (1) Text of string values: the value of a string argument is n arbitrary bytes (solver variables; assumed well-formed UTF-8 or free of characters that need an escape - the two forms a lexed string value can take), the real formatter prints a one-field document holding it (Value.String's quoting runs symbolically), the real lexer reads the text back, and the token value is asserted equal to the bytes. (2) Structure and fixpoint: the document is a symbolic token stream of the C05 harness (a complete seed document with 1-2 arbitrary tokens inserted at every position, or a hole template at every value / name position filled with 1-2 arbitrary tokens). It is parsed symbolically by the real parser; on every accepting path the structure is case-split and every leaf (ordinary names: one arbitrary letter; integers: one arbitrary digit; string / block-string / comment text: one arbitrary character of '#'..'Z') is a fresh solver variable. The real formatter prints that tree under the case's configuration, the real lexer and parser read the text (concrete layout, symbolic leaf bytes; lexer paths over a leaf re-join inside ReadToken), and the harness asserts: the text parses; both trees give the same event list (operations, fragments, variable definitions with types / defaults / directives, selections, aliases, arguments, values, directives; a block string and a quoted string holding the same text count as the same value); formatting the second tree reproduces the text.",
         "bounds": {"quick": "strings: <= 2 arbitrary bytes, default options; structure: the 17 seed documents with 1 token inserted anywhere under 4 configurations (default; comments; compacted; comments + compacted + two-blank indent) and 2 tokens under one (comments + compacted), the 13 hole templates with 1-2 tokens; 5 documents written for the printer (every optional part present; a comment before every token) as they are under 7 configurations; leaves one symbolic character each",
-                   "thorough": "strings <= 3 bytes (4 for ordinary strings); structure: 1-2 inserted tokens under 7 configurations (incl. empty indent, blank+tab indent), 3 tokens under one, holes with 1-3 tokens"},
+                   "thorough": "strings <= 3 bytes (4 for ordinary strings); structure: 1-2 inserted tokens under 7 configurations (incl. empty indent, blank+tab indent), holes with 1-3 tokens, the shorter printer documents with 1 token inserted anywhere"},
         "outside": "documents larger than the seed documents plus 3 tokens; leaves longer than one character (names that are prefixes of keywords, multi-digit numbers); string values longer than the bound together with structure; values built by hand that no lexer run can produce; indents other than the four tried (the property says any white-space indent)",
         "assumptions": PARSE_ASSUME[:1] + ["bytes.Buffer and strings.Builder are engine models (append-only byte sequences)", "strings.TrimSpace / TrimPrefix on a string of concrete length with symbolic bytes are engine models (ASCII; a feasible non-ASCII byte is refused)", "a block-string value and a quoted-string value with the same text are the same value (the printer writes every string value quoted)"],
     },
@@ -375,7 +375,7 @@ CHECKS = {
         "case_timeout": {"quick": 600, "thorough": 3000},
         "level_text": "Two units. (1) Descriptions: a scalar definition (or a field) carrying a description of n arbitrary bytes (solver variables) is printed by the real FormatSchemaDocument, the real lexer reads the description token back (block-string value computation included), and the value is asserted equal to the description. (2) Structure and fixpoint of parsed schema documents: as for C12 over the type-system seed documents and hole templates of the C06 harness - symbolic parse, case split of the accepted structure, leaves as fresh solver variables, the real formatter under the case's configuration, the real lexer and parser on the text; asserted: the text parses, both documents give the same event list (schema definitions / extensions, directive definitions with arguments, repeatable, locations; definitions and extensions with kind, name, description, interfaces, directives, fields with arguments / types / defaults / directives, members, enum values), compared after folding several schema definitions (extensions) into one - the form the printer writes - and, with descriptions switched off, without descriptions; formatting the second document reproduces the text. (3) Loaded schemas: the type system is one of the symbolic shapes of the C07 check (names are solver variables), loaded symbolically by the real loader; on every path that loads, the names are case-split (a name decides which definition is meant: structure, not a leaf), FormatSchema prints the schema, the real lexer, parser and loader read the text back, and the two schemas are asserted equal (types with kind, description, interfaces, members, applied directives with arguments; fields and enum values in order with types, arguments, defaults, directives, descriptions; directive definitions with arguments, locations, repeatable; root operation types; schema directives and description) and the second schema prints to the same text.",
         "bounds": {"quick": "descriptions of 1-2 arbitrary bytes on a top-level definition and on a field, default options; structure: the 35 seed documents with 1 token inserted anywhere under 5 configurations (default; comments; compacted; descriptions off; comments + compacted + two-blank indent + descriptions off) and 2 tokens under one (comments + compacted + descriptions off), the 25 hole templates with 1-2 tokens; 8 documents written for the printer (descriptions, name-valued defaults, several arguments, directives with arguments at every position, every extension kind, a comment before every token) as they are under 11 configurations; loaded schemas: the 54 pieces of the 8 type-system shapes, one formatter configuration each (rotating over default, comments, compacted, descriptions off, comments + compacted + two-blank indent)",
-                   "thorough": "loaded schemas under 4 configurations each; descriptions 1-3 bytes; 1-2 inserted tokens under 8 configurations, 3 under one, holes with 1-3 tokens"},
+                   "thorough": "loaded schemas under 4 configurations each; descriptions 1-3 bytes; 1-2 inserted tokens under 11 configurations, holes with 1-3 tokens, the shorter printer documents with 1 token inserted anywhere"},
         "outside": "FormatSchema with built-ins switched on (its output re-declares the prelude and cannot be loaded through LoadSchema); loaded schemas beyond the 54 pieces of the C07 shapes (few descriptions and defaults there); documents accepted only through the listed finding KF-C06-schema-without-operation-types (`schema` without operation types prints as `schema {}`); descriptions of arguments, enum values and directive definitions beyond one character; longer descriptions together with structure; larger documents",
         "assumptions": PARSE_ASSUME[:1] + ["bytes.Buffer is an engine model", "strings.Split / TrimSpace / TrimPrefix on symbolic strings are modelled (engine self-test against Go)"],
     },
